@@ -25,6 +25,7 @@ TECH = {
  "C19": "exception-discipline table over verify_password, dominance of verification over the True result, writer/reader agreement of the hash string layout",
  "C20": "key-kind (NAME vs class) agreement on registered_events, guard-polarity contradiction rule, sibling agreement of register/unregister",
 }
+from rules.common import IDIOMS_NOTE
 checks = []
 for i in range(1, 21):
     pid = "C%02d" % i
@@ -39,9 +40,9 @@ for i in range(1, 21):
         "engine": "static-rules",
         "level_claimed": {
             "category": "other",
-            "text": ("Static conformance to repository-specific rules %s..%s, decided from the source of /repo's current working tree on every run "
+            "text": ("Static conformance to the repository-specific rules %s, decided from the source of /repo's current working tree on every run "
                      "(nothing is imported or executed): each rule is a necessary structural condition of the property - breaking it breaks the behaviour - "
-                     "and is universally quantified over paths / cells / call sites by construction. " % (rules[0], rules[-1])) + m.EXPLANATION,
+                     "and is universally quantified over paths / cells / call sites by construction. " % ", ".join(sorted(rules))) + m.EXPLANATION + IDIOMS_NOTE,
             "design_ref": "DESIGN.md section 4, %s" % pid,
         },
         "level_note": "Decides the named structural clauses only, not the runtime behaviour as a whole. Trusted base: CPython ast/symtable/re._parser/struct.calcsize and /verif/engine. Assumes: " + "; ".join(m.ASSUMPTIONS),
